@@ -83,28 +83,26 @@ Proof. intros U Dn. destruct (D_cases n Dn) as [Hn|[k [Hk ->]]].
 
 (* ---- clean_const ---- *)
 Definition r_citem (x : citem) : citem := match x with CRef r => CRef (r_ref r) | CNuc ps => CNuc ps end.
-Definition item_ok (it : item) : bool :=
-  match it with IRef n _ => negb (is_anon n) | IDom n _ => negb (is_anon n) | INuc _ => true end.
 
-Lemma clean_const_r c : keysD (c_bases c) -> forall items const, forallb item_ok items = true ->
+Lemma clean_const_r c : keysD (c_bases c) -> forall items const,
   clean_const c items = OK const -> clean_const (r_comp c) items = OK (map r_citem const).
-Proof. intros K. induction items as [|it items IH]; intros const HI H; simpl in H.
+Proof. intros K. induction items as [|it items IH]; intros const H; simpl in H.
   - inversion H. reflexivity.
-  - simpl in HI. apply andb_prop in HI. destruct HI as [H1 H2]. destruct it as [ps|n star|n star]; simpl in H |- *.
+  - destruct it as [ps|n star|n star]; simpl in H |- *.
     + destruct (clean_const c items) as [r|]; [|discriminate]. simpl in H. inversion H; subst.
-      rewrite (IH r H2 eq_refl). reflexivity.
-    + apply negb_true_iff in H1. destruct (rho_user n H1) as [Dn Rn].
+      rewrite (IH r eq_refl). reflexivity.
+    + destruct (is_anon n) eqn:H1; [discriminate|]. destruct (rho_user n H1) as [Dn Rn].
       rewrite <- Rn at 1. rewrite (ahas_r_tbl _ _ K Dn), ahas_r_sups.
       destruct (ahas (c_bases c) n).
       * destruct (clean_const c items) as [r|]; [|discriminate]. simpl in H. inversion H; subst.
-        rewrite (IH r H2 eq_refl). simpl. rewrite Rn. reflexivity.
+        rewrite (IH r eq_refl). simpl. rewrite Rn. reflexivity.
       * destruct (ahas (c_sups c) n); [|discriminate].
         destruct (clean_const c items) as [r|]; [|discriminate]. simpl in H. inversion H; subst.
-        rewrite (IH r H2 eq_refl). reflexivity.
-    + unfold ref_seqs in *. cbn [r_comp c_sups]. rewrite afind_r_sups.
+        rewrite (IH r eq_refl). reflexivity.
+    + destruct (is_anon n) eqn:H1; [discriminate|]. unfold ref_seqs in *. cbn [r_comp c_sups]. rewrite afind_r_sups.
       destruct (afind (c_sups c) n) as [s|]; [|discriminate]. simpl.
       destruct (clean_const c items) as [r|]; [|discriminate]. simpl in H. inversion H; subst.
-      rewrite (IH r H2 eq_refl). simpl. rewrite map_app, !map_map. f_equal. f_equal.
+      rewrite (IH r eq_refl). simpl. rewrite map_app, !map_map. f_equal. f_equal.
       destruct star; [rewrite <- r_rc_refs, map_map; reflexivity | rewrite map_map; reflexivity]. Qed.
 
 (* ---- the SuperSequence constructor ---- *)
@@ -204,13 +202,12 @@ Proof. intros K L B [B1 B2 B3 B4 B5 B6 B7] x Hx. destruct (B4 x Hx) as [H|[m [->
   simpl. apply (anon_keys_D ctr anons ctr1 L B B2 m H). Qed.
 
 Lemma add_super_sequence_r c ctr name items len c1 ctr1 : INV c ctr -> dom_ok c -> lo <= ctr -> ctr1 <= hi ->
-  is_anon name = false -> forallb item_ok items = true ->
   add_super_sequence c ctr name items len = OK (c1, ctr1) ->
   add_super_sequence (r_comp c) (sh ctr) name items len = OK (r_comp c1, sh ctr1) /\ dom_ok c1.
-Proof. intros [W W2 F] [KB US] L B HN HI H. unfold add_super_sequence in *.
+Proof. intros [W W2 F] [KB US] L B H. unfold add_super_sequence in *. destruct (is_anon name) eqn:HN; [discriminate|].
   rewrite (seq_defined_r c name KB HN). destruct (seq_defined c name) eqn:SD; [discriminate|].
   destruct (clean_const c items) as [const|] eqn:CC; [|discriminate]. cbn [bind] in H.
-  rewrite (clean_const_r c KB items const HI CC). cbn [bind].
+  rewrite (clean_const_r c KB items const CC). cbn [bind].
   destruct (build_super c ctr const len) as [[[s anons] k1]|] eqn:BS; [|discriminate]. cbn [bind] in H.
   injection H as H1 H2. subst k1.
   pose proof (clean_const_spec c W items const CC) as CD.
@@ -233,14 +230,13 @@ Proof. intros [W W2 F] [KB US] L B HN HI H. unfold add_super_sequence in *.
     apply in_map_iff in Hk. destruct Hk as [[k' b] [<- Hin]]. apply HX in Hin. apply KA. apply in_map_iff. exists (k', b). auto. Qed.
 
 Lemma add_strand_r c ctr dummy name items len c1 ctr1 : INV c ctr -> dom_ok c -> lo <= ctr -> ctr1 <= hi ->
-  forallb item_ok items = true ->
   add_strand c ctr dummy name items len = OK (c1, ctr1) ->
   add_strand (r_comp c) (sh ctr) dummy name items len = OK (r_comp c1, sh ctr1) /\ dom_ok c1.
-Proof. intros [W W2 F] [KB US] L B HI H. unfold add_strand in *. cbn [r_comp c_strands]. rewrite ahas_r_strands.
+Proof. intros [W W2 F] [KB US] L B H. unfold add_strand in *. cbn [r_comp c_strands]. rewrite ahas_r_strands.
   destruct (ahas (c_strands c) name) eqn:SD; [discriminate|].
   destruct (clean_const c items) as [const|] eqn:CC; [|discriminate]. cbn [bind] in H.
   change (clean_const _ items) with (clean_const (r_comp c) items).
-  rewrite (clean_const_r c KB items const HI CC). cbn [bind].
+  rewrite (clean_const_r c KB items const CC). cbn [bind].
   destruct (build_super c ctr const len) as [[[s anons] k1]|] eqn:BS; [|discriminate]. cbn [bind] in H.
   destruct (Nat.eqb (s_len s) 0) eqn:Z; [discriminate|]. injection H as H1 H2. subst k1.
   pose proof (clean_const_spec c W items const CC) as CD.
@@ -259,9 +255,9 @@ Proof. intros [W W2 F] [KB US] L B HI H. unfold add_strand in *. cbn [r_comp c_s
     rewrite E. intros k Hk. rewrite map_app in Hk. apply in_app_or in Hk. destruct Hk as [Hk|Hk]; [apply KB, Hk|].
     apply in_map_iff in Hk. destruct Hk as [[k' b] [<- Hin]]. apply HX in Hin. apply KA. apply in_map_iff. exists (k', b). auto. Qed.
 
-Lemma add_sequence_r c name ps len c1 : dom_ok c -> is_anon name = false ->
+Lemma add_sequence_r c name ps len c1 : dom_ok c ->
   add_sequence c name ps len = OK c1 -> add_sequence (r_comp c) name ps len = OK (r_comp c1) /\ dom_ok c1.
-Proof. intros [KB US] HN H. unfold add_sequence in *. rewrite (seq_defined_r c name KB HN).
+Proof. intros [KB US] H. unfold add_sequence in *. destruct (is_anon name) eqn:HN; [discriminate|]. rewrite (seq_defined_r c name KB HN).
   destruct (seq_defined c name); [discriminate|]. destruct (get_length_const len ps) as [l k| |k]; try discriminate.
   injection H as H. subst c1. destruct (rho_user name HN) as [Dn Rn]. split.
   - unfold r_comp, set_bases. cbn [c_prefix c_bases c_sups c_strands c_structs c_kins c_ins c_outs].
@@ -302,48 +298,37 @@ Lemma add_kinetic_r c low high ins0 outs c1 : dom_ok c -> add_kinetic c low high
 Proof. intros [KB US] H. unfold add_kinetic in *. cbn [r_comp c_structs]. destruct (_ && _); [|discriminate].
   injection H as H. subst c1. split; [reflexivity | constructor; cbn [c_bases c_sups]; assumption]. Qed.
 
-Definition port_ok (p : port) : bool := negb (is_anon (fst (fst p))).
-Lemma resolve_ports_r c ps l : keysD (c_bases c) -> forallb port_ok ps = true -> resolve_ports c ps = OK l ->
+Lemma resolve_ports_r c ps l : keysD (c_bases c) -> resolve_ports c ps = OK l ->
   resolve_ports (r_comp c) ps = OK (r_ports l).
-Proof. intros KB. revert l. induction ps as [|[[n star] sn] r IH]; intros l HP H; simpl in H; [inversion H; reflexivity|].
-  simpl in HP. apply andb_prop in HP. destruct HP as [H1 H2]. unfold port_ok in H1. simpl in H1. apply negb_true_iff in H1.
-  destruct (rho_user n H1) as [Dn Rn]. cbn [resolve_ports r_comp c_bases c_sups c_structs].
+Proof. intros KB. revert l. induction ps as [|[[n star] sn] r IH]; intros l H; simpl in H; [inversion H; reflexivity|].
+  destruct (is_anon n) eqn:H1; [discriminate|].
+  destruct (rho_user n H1) as [Dn Rn]. cbn [resolve_ports r_comp c_bases c_sups c_structs]. rewrite H1.
   rewrite <- Rn at 1. rewrite (ahas_r_tbl _ _ KB Dn), ahas_r_sups.
   destruct (ahas (c_bases c) n).
   - cbn [bind] in H |- *. destruct sn as [sname|].
     + destruct (ahas (c_structs c) sname); [|discriminate]. cbn [bind] in H |- *.
       destruct (resolve_ports c r) as [rest|]; [|discriminate]. cbn [bind] in H. inversion H; subst.
-      change (resolve_ports _ r) with (resolve_ports (r_comp c) r). rewrite (IH rest H2 eq_refl). cbn [bind]. simpl. rewrite Rn. reflexivity.
+      change (resolve_ports _ r) with (resolve_ports (r_comp c) r). rewrite (IH rest eq_refl). cbn [bind]. simpl. rewrite Rn. reflexivity.
     + cbn [bind] in H |- *. destruct (resolve_ports c r) as [rest|]; [|discriminate]. cbn [bind] in H. inversion H; subst.
-      change (resolve_ports _ r) with (resolve_ports (r_comp c) r). rewrite (IH rest H2 eq_refl). cbn [bind]. simpl. rewrite Rn. reflexivity.
+      change (resolve_ports _ r) with (resolve_ports (r_comp c) r). rewrite (IH rest eq_refl). cbn [bind]. simpl. rewrite Rn. reflexivity.
   - destruct (ahas (c_sups c) n); [|discriminate]. cbn [bind] in H |- *. destruct sn as [sname|].
     + destruct (ahas (c_structs c) sname); [|discriminate]. cbn [bind] in H |- *.
       destruct (resolve_ports c r) as [rest|]; [|discriminate]. cbn [bind] in H. inversion H; subst.
-      change (resolve_ports _ r) with (resolve_ports (r_comp c) r). rewrite (IH rest H2 eq_refl). reflexivity.
+      change (resolve_ports _ r) with (resolve_ports (r_comp c) r). rewrite (IH rest eq_refl). reflexivity.
     + cbn [bind] in H |- *. destruct (resolve_ports c r) as [rest|]; [|discriminate]. cbn [bind] in H. inversion H; subst.
-      change (resolve_ports _ r) with (resolve_ports (r_comp c) r). rewrite (IH rest H2 eq_refl). reflexivity. Qed.
+      change (resolve_ports _ r) with (resolve_ports (r_comp c) r). rewrite (IH rest eq_refl). reflexivity. Qed.
 
-Definition decl_ok (d : declare) : bool := forallb port_ok (d_ins d) && forallb port_ok (d_outs d).
-Lemma add_IO_r c d c1 : dom_ok c -> decl_ok d = true -> add_IO c d = OK c1 -> add_IO (r_comp c) d = OK (r_comp c1).
-Proof. intros [KB US] HD H. unfold decl_ok in HD. apply andb_prop in HD. destruct HD as [H1 H2]. unfold add_IO in *.
+Lemma add_IO_r c d c1 : dom_ok c -> add_IO c d = OK c1 -> add_IO (r_comp c) d = OK (r_comp c1).
+Proof. intros [KB US] H. unfold add_IO in *.
   destruct (resolve_ports c (d_ins d)) as [i|] eqn:RI; [|discriminate]. cbn [bind] in H.
   destruct (resolve_ports c (d_outs d)) as [o|] eqn:RO; [|discriminate]. cbn [bind] in H. injection H as H. subst c1.
-  rewrite (resolve_ports_r c _ i KB H1 RI), (resolve_ports_r c _ o KB H2 RO). reflexivity. Qed.
+  rewrite (resolve_ports_r c _ i KB RI), (resolve_ports_r c _ o KB RO). reflexivity. Qed.
 
 (* ---- statements ---- *)
-Definition stmt_pure (s : stmt) : bool :=
-  match s with
-  | SSeq name items _ => negb (is_anon name) && forallb item_ok items
-  | SStrand _ _ items _ => forallb item_ok items
-  | _ => true
-  end.
-Lemma stmt_pure_ok s : stmt_pure s = true -> stmt_ok s = true.
-Proof. destruct s; simpl; auto. intros H. apply andb_prop in H. tauto. Qed.
-
 Lemma step_ctr c ctr s c1 ctr1 : INV c ctr -> step (c, ctr) s = OK (c1, ctr1) -> ctr <= ctr1.
 Proof. intros [W W2 F] H. destruct s as [name items len|dummy name items len|opt name names domain sn|low high ins0 outs]; cbn [step] in H.
   - assert (G : add_super_sequence c ctr name items len = OK (c1, ctr1) -> ctr <= ctr1).
-    { clear H. intros H. unfold add_super_sequence in H. destruct (seq_defined c name); [discriminate|].
+    { clear H. intros H. unfold add_super_sequence in H. destruct (is_anon name); [discriminate|]. destruct (seq_defined c name); [discriminate|].
       destruct (clean_const c items) as [const|] eqn:CC; [|discriminate]. cbn [bind] in H.
       destruct (build_super c ctr const len) as [[[s anons] k1]|] eqn:BS; [|discriminate]. cbn [bind] in H. injection H as _ <-.
       apply (bt_ctr _ _ _ _ _ (build_super_spec c ctr const len s anons k1 F (clean_const_spec c W items const CC) BS)). }
@@ -358,41 +343,36 @@ Proof. intros [W W2 F] H. destruct s as [name items len|dummy name items len|opt
     cbn [bind] in H. injection H as _ <-. lia.
   - destruct (add_kinetic c low high ins0 outs); [|discriminate]. cbn [bind] in H. injection H as _ <-. lia. Qed.
 
-Lemma steps_ctr body : forall c ctr c1 ctr1, INV c ctr -> forallb stmt_ok body = true -> steps (c, ctr) body = OK (c1, ctr1) -> ctr <= ctr1.
-Proof. induction body as [|s body IH]; intros c ctr c1 ctr1 I HS H; cbn [steps] in H; [injection H as _ <-; lia|].
-  simpl in HS. apply andb_prop in HS. destruct HS as [H1 H2].
+Lemma steps_ctr body : forall c ctr c1 ctr1, INV c ctr -> steps (c, ctr) body = OK (c1, ctr1) -> ctr <= ctr1.
+Proof. induction body as [|s body IH]; intros c ctr c1 ctr1 I H; cbn [steps] in H; [injection H as _ <-; lia|].
   destruct (step (c, ctr) s) as [[c2 k2]|] eqn:ST; [|discriminate]. cbn [bind] in H.
-  pose proof (step_ctr _ _ _ _ _ I ST). pose proof (IH _ _ _ _ (step_inv _ _ _ _ _ I H1 ST) H2 H). lia. Qed.
+  pose proof (step_ctr _ _ _ _ _ I ST). pose proof (IH _ _ _ _ (step_inv _ _ _ _ _ I ST) H). lia. Qed.
 
-Lemma step_r c ctr s c1 ctr1 : INV c ctr -> dom_ok c -> lo <= ctr -> ctr1 <= hi -> stmt_pure s = true ->
+Lemma step_r c ctr s c1 ctr1 : INV c ctr -> dom_ok c -> lo <= ctr -> ctr1 <= hi ->
   step (c, ctr) s = OK (c1, ctr1) -> step (r_comp c, sh ctr) s = OK (r_comp c1, sh ctr1) /\ dom_ok c1.
-Proof. intros I DO L B HP H. destruct s as [name items len|dummy name items len|opt name names domain sn|low high ins0 outs]; cbn [step] in H |- *.
-  - simpl in HP. apply andb_prop in HP. destruct HP as [HN HI]. apply negb_true_iff in HN.
-    assert (G : add_super_sequence c ctr name items len = OK (c1, ctr1) ->
+Proof. intros I DO L B H. destruct s as [name items len|dummy name items len|opt name names domain sn|low high ins0 outs]; cbn [step] in H |- *.
+  - assert (G : add_super_sequence c ctr name items len = OK (c1, ctr1) ->
                 add_super_sequence (r_comp c) (sh ctr) name items len = OK (r_comp c1, sh ctr1) /\ dom_ok c1)
-      by apply (add_super_sequence_r _ _ _ _ _ _ _ I DO L B HN HI).
+      by apply (add_super_sequence_r _ _ _ _ _ _ _ I DO L B).
     destruct items as [|[ps|n r|n r] [|it2 items]]; try (exact (G H)).
     destruct (add_sequence c name ps len) as [c2|] eqn:A; [|discriminate]. cbn [bind] in H. injection H as <- <-.
-    destruct (add_sequence_r c name ps len c2 DO HN A) as [A' D']. rewrite A'. cbn [bind]. auto.
-  - simpl in HP. apply (add_strand_r _ _ _ _ _ _ _ _ I DO L B HP H).
+    destruct (add_sequence_r c name ps len c2 DO A) as [A' D']. rewrite A'. cbn [bind]. auto.
+  - apply (add_strand_r _ _ _ _ _ _ _ _ I DO L B H).
   - destruct (compile_snot sn) as [s0|]; [|discriminate]. cbn [bind] in H |- *.
     destruct (add_structure c opt name names domain s0) as [c2|] eqn:A; [|discriminate]. cbn [bind] in H. injection H as <- <-.
     destruct (add_structure_r c opt name names domain s0 c2 (inv_wf _ _ I) DO A) as [A' D']. rewrite A'. cbn [bind]. auto.
   - destruct (add_kinetic c low high ins0 outs) as [c2|] eqn:A; [|discriminate]. cbn [bind] in H. injection H as <- <-.
     destruct (add_kinetic_r c low high ins0 outs c2 DO A) as [A' D']. rewrite A'. cbn [bind]. auto. Qed.
 
-Lemma steps_r body : forall c ctr c1 ctr1, INV c ctr -> dom_ok c -> lo <= ctr -> ctr1 <= hi -> forallb stmt_pure body = true ->
+Lemma steps_r body : forall c ctr c1 ctr1, INV c ctr -> dom_ok c -> lo <= ctr -> ctr1 <= hi ->
   steps (c, ctr) body = OK (c1, ctr1) -> steps (r_comp c, sh ctr) body = OK (r_comp c1, sh ctr1) /\ dom_ok c1.
-Proof. induction body as [|s body IH]; intros c ctr c1 ctr1 I DO L B HP H; cbn [steps] in H |- *.
+Proof. induction body as [|s body IH]; intros c ctr c1 ctr1 I DO L B H; cbn [steps] in H |- *.
   - injection H as <- <-. auto.
-  - simpl in HP. apply andb_prop in HP. destruct HP as [H1 H2].
-    destruct (step (c, ctr) s) as [[c2 k2]|] eqn:ST; [|discriminate]. cbn [bind] in H.
-    pose proof (step_inv _ _ _ _ _ I (stmt_pure_ok _ H1) ST) as I2.
-    assert (SO : forallb stmt_ok body = true).
-    { rewrite forallb_forall in *. intros x Hx. apply stmt_pure_ok, H2, Hx. }
-    pose proof (steps_ctr body _ _ _ _ I2 SO H) as M2. pose proof (step_ctr _ _ _ _ _ I ST) as M1.
-    destruct (step_r c ctr s c2 k2 I DO L ltac:(lia) H1 ST) as [ST' D2]. rewrite ST'. cbn [bind].
-    apply (IH c2 k2 c1 ctr1 I2 D2 ltac:(lia) B H2 H). Qed.
+  - destruct (step (c, ctr) s) as [[c2 k2]|] eqn:ST; [|discriminate]. cbn [bind] in H.
+    pose proof (step_inv _ _ _ _ _ I ST) as I2.
+    pose proof (steps_ctr body _ _ _ _ I2 H) as M2. pose proof (step_ctr _ _ _ _ _ I ST) as M1.
+    destruct (step_r c ctr s c2 k2 I DO L ltac:(lia) ST) as [ST' D2]. rewrite ST'. cbn [bind].
+    apply (IH c2 k2 c1 ctr1 I2 D2 ltac:(lia) B H). Qed.
 End Ren.
 
 (* ---- the concrete renumbering ---- *)
@@ -423,27 +403,26 @@ Proof. intros [Ha|[k [Hk ->]]] [Hb|[j [Hj ->]]].
 (* Compiling the same component from another starting value of the anonymous counter (which is all
    that earlier compilations in the same process can change) succeeds as well and yields the same
    object with _Anon(ctr+k) renamed to _Anon(ctr'+k), the same number of anonymous sequences. *)
-Theorem compile_renumber ctr ctr' prefix d body c ctr1 : forallb stmt_pure body = true -> decl_ok d = true ->
+Theorem compile_renumber ctr ctr' prefix d body c ctr1 :
   compile_comp ctr prefix d body = OK (c, ctr1) ->
   compile_comp ctr' prefix d body = OK (r_comp (rho_c ctr ctr1 ctr') c, ctr' + (ctr1 - ctr)).
-Proof. intros HP HD H. unfold compile_comp in *.
+Proof. intros H. unfold compile_comp in *.
   destruct (steps (empty_comp prefix, ctr) body) as [[c1 k1]|] eqn:ST; [|discriminate]. cbn [bind fst snd] in H.
   destruct (add_IO c1 d) as [c2|] eqn:IO; [|discriminate]. cbn [bind] in H. injection H as <- <-.
-  assert (SO : forallb stmt_ok body = true) by (rewrite forallb_forall in *; intros x Hx; apply stmt_pure_ok, HP, Hx).
-  pose proof (steps_ctr body _ _ _ _ (INV_empty prefix ctr) SO ST) as M.
+  pose proof (steps_ctr body _ _ _ _ (INV_empty prefix ctr) ST) as M.
   destruct (steps_r (rho_c ctr k1 ctr') (D_c ctr k1) ctr k1 ctr' (rho_c_inj ctr k1 ctr') (rho_c_user ctr k1 ctr') (rho_c_anon ctr k1 ctr')
               (fun n H => H) body (empty_comp prefix) ctr c1 k1 (INV_empty prefix ctr)) as [ST' DO]; auto.
   - constructor; intros k [].
   - unfold sh in ST'. replace (ctr - ctr + ctr') with ctr' in ST' by lia.
     change (r_comp (rho_c ctr k1 ctr') (empty_comp prefix)) with (empty_comp prefix) in ST'. rewrite ST'. cbn [bind fst snd].
-    rewrite (add_IO_r (rho_c ctr k1 ctr') (D_c ctr k1) (rho_c_inj ctr k1 ctr') (rho_c_user ctr k1 ctr') c1 d c2 DO HD IO).
+    rewrite (add_IO_r (rho_c ctr k1 ctr') (D_c ctr k1) (rho_c_inj ctr k1 ctr') (rho_c_user ctr k1 ctr') c1 d c2 DO IO).
     cbn [bind]. f_equal. f_equal. lia. Qed.
 
 (* non-vacuity: the demo program of CompileProofs is pure, compiles from 7 and from 40 *)
-Example renumber_demo : forallb stmt_pure demo_body = true /\
+Example renumber_demo :
   exists c, compile_comp 7 "p-" {| d_name := "p"; d_ins := []; d_outs := [] |} demo_body = OK (c, 9) /\
             map fst (c_bases (r_comp (rho_c 7 9 40) c)) = ["a"; "z"; "_Anon40"; "_Anon41"]%string.
-Proof. split; [reflexivity|]. eexists. split; vm_compute; reflexivity. Qed.
+Proof. eexists. split; vm_compute; reflexivity. Qed.
 
 (* ---- the emitted specification is renumbered the same way ---- *)
 Fixpoint strip (p s : string) : option string :=
